@@ -191,6 +191,25 @@ _WRAP = ('map', 'clone', 'into', 'from', 'to_owned', 'to_vec', 'cloned', 'copied
          'Some', 'as_deref', 'borrow')
 
 
+_BODY = [None]
+
+
+def _none_from_source(a, root):
+    """the `None` alternative of a mapped option stands for the source being None (built on the source's None arm) - not
+    for a predicate that rejected a present value (`opt.filter(..)` desugars to the same phi shape)"""
+    body = _BODY[0]
+    if body is None or not a.site:
+        return True
+    from lib import path_conditions
+    conds = path_conditions(body, a.site[0])
+    for c in conds:
+        if c.kind == 'discr' and c.variants == {'None'} and c.expr is not None and any(
+                p.root == root for p in c.expr.places()):
+            return True
+    # no test of the source on the way to this None: it was produced by something else
+    return not any(c.kind == 'bool' for c in conds) and not conds
+
+
 def _is_identity(x, root, top=True, field=None):
     """x is the value rooted at `root` (optionally: its field `field`) itself, seen through value-preserving wrappers
     and Option::map of such"""
@@ -216,7 +235,8 @@ def _is_identity(x, root, top=True, field=None):
     if x.kind == 'phi':
         alts = x.args
         return any(not (a.kind == 'agg' and a.name.endswith('None')) for a in alts) and \
-            all(_is_identity(a, root, False, field) for a in alts)
+            all(_is_identity(a, root, False, field) for a in alts) and \
+            all(_none_from_source(a, root) for a in alts if a.kind == 'agg' and a.name.endswith('None'))
     return False
 
 
@@ -243,12 +263,26 @@ def identity_ctor(ctx, R, path, fields=None):
             ctx.note(R, '%s does not build its result as a struct literal over its parameters: identity wiring not evaluated' % path)
             continue
         ctx.read(b)
+        _BODY[0] = b
         for a in aggs[:1]:
             m = dict(zip(a.extra['fields'], a.args))
             for f, x in m.items():
                 if f not in byname or (fields and f not in fields):
                     continue
                 ok = _is_identity(x, ('param', byname[f]))
+                # every definition of the stored value that is `None` was built on the parameter's own None arm (the phi
+                # the expression builder shows merges equal alternatives, so the definitions are read from the MIR)
+                ops_ = a.extra.get('ops') or []
+                idx_ = a.extra['fields'].index(f)
+                if ok and idx_ < len(ops_) and ops_[idx_].get('k') in ('copy', 'move') and not ops_[idx_]['pl']['p']:
+                    from lib import path_conditions
+                    for d_ in b.defs().get(ops_[idx_]['pl']['l'], []):
+                        if d_[0] == 'assign' and d_[3]['rv'].get('k') == 'agg' and d_[3]['rv'].get('v') == 'None' and \
+                                d_[1] in b.live_blocks():
+                            cs_ = path_conditions(b, d_[1])
+                            if any(c_.kind == 'bool' for c_ in cs_) and not any(
+                                    c_.kind == 'discr' and c_.variants == {'None'} for c_ in cs_):
+                                ok = False
                 n += 1
                 ctx.check(ok, R, b, 'ctor:%s-stored-unchanged' % f, repr(x)[:80],
                           '%s stores %r in `%s`: not the parameter `%s` itself - a value the caller did not pass (a default '
